@@ -1,7 +1,56 @@
 /- Line-protocol driver for the C19 model (see harness/c19.py for the request shapes). -/
 import PgModel.Json
 import PgGen.C19Tables
+import PgModel.CodeTail
 open Pg Pg.C19
+
+namespace TailJ
+open Pg.C19.Tail
+
+partial def exOfJ : J → Option Ex
+  | .arr [.str "lit", .int i] => some (.lit i)
+  | .arr [.str "none"] => some .noneLit
+  | .arr [.str "var", .str x] => some (.var x)
+  | .arr [.str "add", a, b] => do pure (.add (← exOfJ a) (← exOfJ b))
+  | .arr [.str "print", e] => do pure (.print (← exOfJ e))
+  | _ => none
+
+def stmtOfJ : J → Option Stmt
+  | .arr [.str "assign", .arr ts, e] => do pure (.assign (← ts.mapM J.asStr?) (← exOfJ e))
+  | .arr [.str "expr", e] => do pure (.expr (← exOfJ e))
+  | .arr [.str "aug", .str x, e] => do pure (.aug x (← exOfJ e))
+  | .arr [.str "pass"] => some .pass
+  | _ => none
+
+def valOfJ : J → Option Val
+  | .null => some .none
+  | .int i => some (.int i)
+  | _ => none
+
+def valToJ : Val → J
+  | .none => .null
+  | .int i => .int i
+
+def envOfJ (j : J) : Option Env := do
+  let xs ← j.asArr?
+  xs.mapM fun
+    | .arr [.str k, v] => do pure (k, ← valOfJ v)
+    | _ => none
+
+def errName : Err → String
+  | .nameError => "NameError"
+  | .typeError => "TypeError"
+
+def run (prog : List Stmt) (ctx : Env) : J :=
+  match evaluate prog ctx with
+  | .error e => .obj [("outcome", .str "error"), ("error", .str (errName e))]
+  | .ok none => .obj [("outcome", .str "empty")]
+  | .ok (some r) =>
+    .obj [("outcome", .str "ok"), ("result", valToJ r.result),
+          ("vars", .arr ((erase resultKey (outputs ctx r.env)).map fun p => .arr [.str p.1, valToJ p.2])),
+          ("stdout", .arr (r.out.map valToJ))]
+
+end TailJ
 
 partial def nodeOfJ : J → Option (Node Kind)
   | .arr [.str k, .int l, .arr cs] => do
@@ -50,6 +99,10 @@ def handle (j : J) : J :=
     match (j.getStr? "last").bind kindOfName? with
     | some k => .obj [("split", .bool (splitKinds.contains k))]
     | none => bad "split"
+  | some "tail" =>
+    match (j.getArr? "prog").bind (·.mapM TailJ.stmtOfJ), (j.get? "ctx").bind TailJ.envOfJ with
+    | some prog, some ctx => TailJ.run prog ctx
+    | _, _ => bad "tail"
   | some "tables" =>
     .obj [("gate", .obj (allKinds.filterMap fun k =>
               if (gate k).isEmpty then none else some (kindName k, J.ofStrs ((gate k).map Perm.name)))),
